@@ -196,6 +196,15 @@ impl PacketTrait for Packet {
             Self::GnupgAeadData(p) => p.packet_header(),
         }
     }
+
+    // `Serialize for Packet` already writes (and counts) the packet header.
+    fn to_writer_with_header<W: io::Write>(&self, writer: &mut W) -> Result<()> {
+        self.to_writer(writer)
+    }
+
+    fn write_len_with_header(&self) -> usize {
+        self.write_len()
+    }
 }
 
 impl<'a, T: 'a + PacketTrait> PacketTrait for &'a T {
